@@ -51,6 +51,23 @@ structure Cfg where
       `some (some v)` = serve this view -/
   wrap : World → Path → Option (Option StaticView)
 
+/-- Whether a mutating handler may go on: writing was enabled — or the handler does not start with the
+    AllowWrite guard at all. `guardFirst` is an F-shape fact regenerated from the source on every run
+    (`Gen.handler_guardFirst_*`: an `if !h.AllowWrite { … return }` precedes every use of the file
+    system in that handler); while it is `true` this is just `cfg.allowWrite` (`mayWrite_*` below). -/
+def Cfg.mayWrite (cfg : Cfg) (guardFirst : Bool) : Bool := cfg.allowWrite || !guardFirst
+
+@[simp] theorem mayWrite_create (cfg : Cfg) : cfg.mayWrite Gen.handler_guardFirst_HandleCreateFile = cfg.allowWrite := by
+  simp [Cfg.mayWrite, Gen.handler_guardFirst_HandleCreateFile]
+@[simp] theorem mayWrite_write (cfg : Cfg) : cfg.mayWrite Gen.handler_guardFirst_HandleWriteFile = cfg.allowWrite := by
+  simp [Cfg.mayWrite, Gen.handler_guardFirst_HandleWriteFile]
+@[simp] theorem mayWrite_delete (cfg : Cfg) : cfg.mayWrite Gen.handler_guardFirst_HandleDeleteFile = cfg.allowWrite := by
+  simp [Cfg.mayWrite, Gen.handler_guardFirst_HandleDeleteFile]
+@[simp] theorem mayWrite_mkdir (cfg : Cfg) : cfg.mayWrite Gen.handler_guardFirst_HandleMkdir = cfg.allowWrite := by
+  simp [Cfg.mayWrite, Gen.handler_guardFirst_HandleMkdir]
+@[simp] theorem mayWrite_rmdir (cfg : Cfg) : cfg.mayWrite Gen.handler_guardFirst_HandleRmdir = cfg.allowWrite := by
+  simp [Cfg.mayWrite, Gen.handler_guardFirst_HandleRmdir]
+
 def maxName : Nat := 255
 
 /-- a component the OS accepts as a new name -/
@@ -270,7 +287,7 @@ def step (cfg : Cfg) (w : World) (st : State) (r : Req) : World × State × Out 
       (w, st, ⟨bytes, cl⟩)
   | .createFile raw =>
     let p := cleanRequest raw
-    if !cfg.allowWrite then (w, st, ⟨createFileResult false, false⟩) else
+    if !cfg.mayWrite Gen.handler_guardFirst_HandleCreateFile then (w, st, ⟨createFileResult false, false⟩) else
     let st := { st with wo := none }
     if (statInfo w p).any (·.isDir) then (w, st, ⟨createFileResult true, false⟩)
     else if isVirtual p then (w, st, ⟨createFileResult false, false⟩)
@@ -295,7 +312,7 @@ def step (cfg : Cfg) (w : World) (st : State) (r : Req) : World × State × Out 
   | .writeFile announced payload =>
     -- the written amount is reported as an int32: a payload that could not be reported is refused as a whole
     if announced > maxAnnounce then (w, st, ⟨writeFileResult none, false⟩) else
-    if !cfg.allowWrite then (w, st, ⟨writeFileResult none, false⟩) else
+    if !cfg.mayWrite Gen.handler_guardFirst_HandleWriteFile then (w, st, ⟨writeFileResult none, false⟩) else
     match st.wo with
     | none => (w, st, ⟨writeFileResult none, false⟩)
     | some wo =>
@@ -306,7 +323,7 @@ def step (cfg : Cfg) (w : World) (st : State) (r : Req) : World × State × Out 
       | none => (w, st, ⟨writeFileResult (some payload.length), false⟩)
   | .deleteFile raw =>
     let p := cleanRequest raw
-    if !cfg.allowWrite then (w, st, ⟨deleteFileResult false, false⟩) else
+    if !cfg.mayWrite Gen.handler_guardFirst_HandleDeleteFile then (w, st, ⟨deleteFileResult false, false⟩) else
     if (statInfo w p).any (·.isDir) then (w, st, ⟨deleteFileResult false, false⟩) else
     if !p.all nameOk || p.isEmpty then (w, st, ⟨deleteFileResult false, false⟩) else
     -- os.Remove acts on the name itself (lstat semantics for the last component)
@@ -322,7 +339,7 @@ def step (cfg : Cfg) (w : World) (st : State) (r : Req) : World × State × Out 
     | _ => (w, st, ⟨deleteFileResult false, false⟩)
   | .rmdir raw =>
     let p := cleanRequest raw
-    if !cfg.allowWrite then (w, st, ⟨rmdirResult false, false⟩) else
+    if !cfg.mayWrite Gen.handler_guardFirst_HandleRmdir then (w, st, ⟨rmdirResult false, false⟩) else
     if p.isEmpty then (w, st, ⟨rmdirResult false, false⟩) else     -- the root itself is never removed
     if (statInfo w p).any (fun i => !i.isDir) then (w, st, ⟨rmdirResult false, false⟩) else
     if !p.all nameOk then (w, st, ⟨rmdirResult false, false⟩) else
@@ -338,7 +355,7 @@ def step (cfg : Cfg) (w : World) (st : State) (r : Req) : World × State × Out 
     | _ => (w, st, ⟨rmdirResult false, false⟩)
   | .mkdir raw =>
     let p := cleanRequest raw
-    if !cfg.allowWrite then (w, st, ⟨mkdirResult false, false⟩) else
+    if !cfg.mayWrite Gen.handler_guardFirst_HandleMkdir then (w, st, ⟨mkdirResult false, false⟩) else
     if p.isEmpty then
       if w.rootGone then ({ w with rootGone := false, rootMtime := recent }, st, ⟨mkdirResult true, false⟩)
       else (w, st, ⟨mkdirResult false, false⟩)
@@ -374,7 +391,7 @@ def partialWrite (cfg : Cfg) (w : World) (st : State) (input : Bytes) : World :=
   match truncatedWrite input with
   | none => w
   | some (n, part) =>
-    if n > maxAnnounce || !cfg.allowWrite || part.isEmpty then w else
+    if n > maxAnnounce || !cfg.mayWrite Gen.handler_guardFirst_HandleWriteFile || part.isEmpty then w else
     match st.wo with
     | none => w
     | some wo =>
@@ -436,7 +453,7 @@ def ledgerEv (cfg : Cfg) (w : World) (st : State) (r : Req) : Nat × Nat :=
       | some _ => (1, had st.ro.isSome)
   | .createFile raw =>
     let p := PathStr.cleanRequest raw
-    if !cfg.allowWrite then (0, 0) else
+    if !cfg.mayWrite Gen.handler_guardFirst_HandleCreateFile then (0, 0) else
     let closedOld := had st.wo.isSome
     if (step cfg w st (.createFile raw)).2.1.wo.isSome then (1, closedOld) else (0, closedOld)
   | _ => (0, 0)
